@@ -1,5 +1,6 @@
 """C01 — case generator: transaction wire format (parse / serialise / accessors / construction API / compact sizes)."""
 from . import c02
+import hashlib
 
 ID = "C01"
 LEVEL = "proof"
@@ -11,6 +12,11 @@ RULE = ("structured transactions (0..40 inputs/outputs with scripts from the C02
         "through the construction API (tx.build), and again with set_locking_script / set_satoshis annotations (empty, P2PKH, "
         "data-carrier, 252/253/1000/70000-byte locking scripts; before add_input or via get_input/set_input) on a random subset "
         "of the inputs (tx.build_ext: bytes, txid, size, per-input to_bytes and get_unlocking_script_size), TxIn/TxOut::from_hex on the pieces, TxIn::from_outpoint_bytes, and the "
+        "the other construction routes (tx.build_alt: add_inputs/add_outputs, Transaction::default + set_version/set_nlocktime + "
+        "TxIn::default + setters, prepend_*, insert_*, set_input/set_output over placeholders, clone), compact sizes whose payload "
+        "has the top bit set in every width (as values, counts, lengths), ids with leading/trailing zero bytes, transaction ids "
+        "with leading/trailing zero bytes, every getter incl. *_as_bytes, *_hex and both endianness options on every parsed "
+        "transaction, from_hex (both cases) against from_bytes, and the "
         "compact-size writers/readers/helper on both sides of 252/253, 65535/65536, 2^32-1/2^32 and at 2^64-1; "
         "non-trivial = the implementation model accepts the input; distinct by (op, arguments)")
 TRUSTED = ["hand-written Gallina models coq/Model/Tx.v, coq/Model/VarInt.v (and coq/Model/Script.v of C02) of "
@@ -22,8 +28,10 @@ ASSUMPTIONS = ["list lengths and script lengths are below 2^64 (usize); stated a
 
 U32 = 2 ** 32
 U64 = 2 ** 64
-EDGE32 = [0, 1, 2, 0x7fffffff, 0x80000000, 0xfffffffe, 0xffffffff, 0xfd, 0xfe, 0xff, 0x100, 0xffff, 0x10000]
-EDGE64 = [0, 1, 546, 5000000000, 2100000000000000, 2 ** 63 - 1, 2 ** 63, 2 ** 64 - 1, 0xfd, 0xffff, 0x10000, 0xffffffff, 0x100000000]
+EDGE32 = [0, 1, 2, 0x7fffffff, 0x80000000, 0xfffffffe, 0xffffffff, 0xfd, 0xfe, 0xff, 0x100, 0xffff, 0x10000,
+          0x7f, 0x80, 0x7fff, 0x8000, 0x00ffffff, 0x01000000, 0x80000001, 0xff000000, 0x000000ff]
+EDGE64 = [0, 1, 546, 5000000000, 2100000000000000, 2 ** 63 - 1, 2 ** 63, 2 ** 64 - 1, 0xfd, 0xffff, 0x10000, 0xffffffff, 0x100000000,
+          0x80, 0x8000, 2 ** 31, 2 ** 31 - 1, 2 ** 56 - 1, 2 ** 56, 0xff00000000000000, 0x8000000000000001, 2 ** 32 + 1]
 GOOD_OPS = [0, 79, 81, 82, 96, 97, 105, 106, 107, 117, 118, 135, 136, 147, 169, 171, 172, 174, 186, 255, 80, 103, 104]
 
 
@@ -124,8 +132,12 @@ def tx_wire(ver, ins, outs, lt, win=None, wout=None, nin=None, nout=None):
 
 def rand_id(rng):
     r = rng.random()
-    if r < 0.75:
+    if r < 0.6:
         return "l:%d:32" % rng.randrange(1, 2 ** 31)
+    if r < 0.75:
+        k = rng.randrange(1, 9)          # leading / trailing zero bytes, 0x80 / 0xff at either end
+        body = "l:%d:%d" % (rng.randrange(1, 2 ** 31), 32 - k)
+        return rng.choice(["r:00:%d+%s" % (k, body), "%s+r:00:%d" % (body, k), "r:ff:%d+%s" % (k, body), "%s+r:80:%d" % (body, k)])
     if r < 0.85:
         return "r:00:32"
     if r < 0.9:
@@ -206,6 +218,22 @@ def ext_build_args(ver, ins, outs, lt, rng, p_annot=0.6):
     return a
 
 
+ALT = ["bulk", "default", "prepend", "insert", "set", "clone"]
+
+
+def sha256d(b):
+    return hashlib.sha256(hashlib.sha256(b).digest()).digest()
+
+
+def txid_with(pred, tries=200000):
+    """a small transaction whose id (display order) satisfies pred, found by varying the lock time"""
+    for lt in range(tries):
+        raw = bytes.fromhex("01000000" + "00" + "01" + le(lt * 7 + 1, 8) + "0151" + le(lt, 4))
+        if pred(sha256d(raw)[::-1]):
+            return raw.hex()
+    return None
+
+
 FIXED = [
     # tests/transaction.rs
     "01000000029e8d016a7b0dc49a325922d05da1f916d1e4d4f0cb840c9727f3d22ce8d1363f000000008c493046022100e9318720bee5425378b4763b0427158b1051eec8b08442ce3fbfbf7b30202a44022100d4172239ebd701dae2fbaaccd9f038e7ca166707333427e3fb2a2865b19a7f27014104510c67f46d2cbb29476d1f0b794be4cb549ea59ab9cc1e731969a7bf5be95f7ad5e7f904e5ccf50a9dc1714df00fbeb794aa27aaff33260c1032d931a75c56f2ffffffffa3195e7a1ab665473ff717814f6881485dc8759bebe97e31c301ffe7933a656f020000008b48304502201c282f35f3e02a1f32d2089265ad4b561f07ea3c288169dedcf2f785e6065efa022100e8db18aadacb382eed13ee04708f00ba0a9c40e3b21cf91da8859d0f7d99e0c50141042b409e1ebbb43875be5edde9c452c82c01e3903d38fa4fd89f3887a52cb8aea9dc8aec7e2c9d5b3609c03eb16259a2537135a1bf0f9c5fbbcbdbaf83ba402442ffffffff02206b1000000000001976a91420bb5c3bfaef0231dc05190e7f1c8e22e098991e88acf0ca0100000000001976a9149e3e2d23973a04ec1b02be97c30ab9f2f27c3b2c88ac00000000",
@@ -278,6 +306,7 @@ def generate(rng, tier):
             # the same fields through the construction API (ids given in display order)
             bi = [In(expand_py(i.id)[::-1].hex(), i.vout, i.script, i.seq) for i in ins]
             A("tx.build", *flat_build_args(ver, bi, outs, lt, rng))
+            A("tx.build_alt", rng.choice(ALT), *flat_build_args(ver, bi, outs, lt, rng))
             if rng.random() < 0.6 and bi:
                 # ... and with signer annotations on a random subset of the inputs
                 A("tx.build_ext", *ext_build_args(ver, bi, outs, lt, rng))
@@ -434,6 +463,66 @@ def generate(rng, tier):
                   r32(rng), good_script(rng).hex(), r32(rng)) for _ in range(nin)]
         outs = [Out(r64(rng, True), good_script(rng).hex()) for _ in range(rng.randrange(0, 3))]
         A("tx.build_ext", *ext_build_args(r32(rng), ins, outs, r32(rng), rng, 0.8))
+
+    # ---------------------------------------------------------------- the other public routes to the same transaction
+    alt_cases = [
+        (1, 0, [], []),
+        (2, 5, [In("l:3:32", 1, "0151", 0xffffffff)], [Out(1000, "76a988ac")]),
+        (0x80000000, 0xff000000, [In("l:3:32", 0x80000000, "", 0x80), In("00" * 31 + "80", 0xff, "51", 0xffffffff)],
+         [Out(2 ** 63, "51"), Out(0xff, "")]),
+        (4294967295, 4294967295, [In("l:4:32", 0, "0151", 7), In("l:5:32", 1, "", 0xffffffff), In("l:6:32", 2, "r:51:253", 0)],
+         [Out(1, "51"), Out(2 ** 64 - 1, "r:51:252"), Out(3, "")]),
+        (1, 0, [In("r:00:32", 0xffffffff, "03aabbcc", 0xffffffff)], [Out(5000000000, "51")]),
+        (1, 0, [In("l:3:32", 0, "0501", 0)], [Out(1, "51")]),
+    ]
+    for (ver, lt, ins, outs) in alt_cases:
+        A("tx.build", *flat_build_args(ver, ins, outs, lt))
+        for v in ALT:
+            A("tx.build_alt", v, *flat_build_args(ver, ins, outs, lt))
+            A("tx.build_alt", v, *flat_build_args(ver, ins, outs, lt, rng))
+
+    # ---------------------------------------------------------------- compact sizes with the top bit of the payload set
+    for n in [127, 128, 32767, 32768, 32769, 49152]:
+        s1 = "r:51:%d" % n
+        big = n > 1000
+        if not big or n in (32767, 32768) or thorough:
+            P(tx_wire(1, [In("l:3:32", 0, s1, 0xfffffffe)], [Out(1, "51")], 0))
+        if not big or n in (32769, 49152) or thorough:
+            P(tx_wire(1, [In("l:3:32", 0, "", 0)], [Out(2 ** 63, s1)], 0x80000000))
+        if not big or n == 32768 or thorough:
+            A("txin.parse", in_wire(In("l:4:32", 0x80000000, s1, 0x80)))
+            A("txout.parse", out_wire(Out(2 ** 63 + 1, s1)))
+            A("tx.build", 1, 0, 1, 1, "l:3:32", 0, s1, 0, 1, "51")
+        if not big or thorough:
+            P(tx_wire(1, [In("r:00:32", 0xffffffff, "l:9:%d" % n, 0)], [Out(1, "51")], 0))
+    for ext in [0x7f, 0x80, 0xff, 0x7fff, 0x8000, 0xffff, 0x7fffffff, 0x80000000, 0xffffffff, 2 ** 63 - 1, 2 ** 63, 2 ** 64 - 1]:
+        A("varint.write", ext); A("varint.bytes", ext)
+        for wd in (1, 3, 5, 9):
+            if ext < (1 << (8 * (wd - 1))) and not (wd == 1 and ext > 252):
+                A("varint.read", cs(ext, wd))
+                A("varint.read", cs(ext, wd) + "ff")
+                if wd > 1:
+                    # as an input count, an output count, a script length (not enough data follows: must be rejected, not misread)
+                    P("01000000" + cs(ext, wd) + "00" * 45)
+                    P("01000000" + "00" + cs(ext, wd) + "00" * 12)
+                    P("01000000" + "01" + "00" * 36 + cs(ext, wd) + "51" * 3 + "00000000" + "00" + "00000000")
+                    A("txin.parse", "11" * 36 + cs(ext, wd) + "51" * 3 + "00000000")
+                    A("txout.parse", "11" * 8 + cs(ext, wd) + "51" * 3)
+    # (a count of 32768+ items cannot be run: the Gallina readers are quadratic in the item count — 32768 outputs do not
+    #  finish in 15 minutes.  The same reader/writer functions are exercised with top-bit payloads as script lengths and
+    #  through varint.read/write above; as counts only in the rejecting direction.)
+
+    # ---------------------------------------------------------------- script lengths in further residue classes mod 256
+    for n in [257, 511, 512, 513, 767, 1023, 1024, 1279]:
+        s1 = "r:51:%d" % n
+        P(tx_wire(1, [In("l:3:32", 0, s1, 1)], [Out(1, s1)], 0))
+        A("tx.build", 1, 0, 1, 1, "l:3:32", 0, s1, 0, 1, s1)
+
+    # ---------------------------------------------------------------- transaction ids with leading / trailing zero bytes
+    for pred in [lambda h: h[0] == 0, lambda h: h[-1] == 0, lambda h: h[0] == 0 and h[1] == 0, lambda h: h[0] >= 0x80 and h[-1] >= 0x80 and h[1] == 0]:
+        h = txid_with(pred)
+        if h:
+            P(h)
 
     # ---------------------------------------------------------------- outpoints
     for d in ["", "00", "r:00:35", "r:00:36", "r:00:37", "l:5:36", "l:6:36", "r:ff:36", "l:7:35", "l:7:37", "l:7:72"]:
